@@ -4,8 +4,9 @@ CONSTANTS
   MinExp = 2
   Behind = 2
   Ahead = 2
-  MaxH = 5
+  MaxH = 4
   MaxOps = 1
+  MaxFaults = 2
   Ticks = {1, 2}
 INVARIANTS
   TypeOK
